@@ -57,6 +57,17 @@ class _Norm(ast.NodeTransformer):
             return ast.copy_location(ast.Name(id="wait", ctx=ast.Load()), node)
         return self.generic_visit(node)
 
+    def visit_Compare(self, node: ast.Compare):
+        # len(x) == 0  ->  not x ;  len(x) != 0 / len(x) > 0  ->  x
+        if len(node.ops) == 1 and isinstance(node.left, ast.Call) and dotted(node.left.func) == "len" and len(node.left.args) == 1 \
+                and isinstance(node.comparators[0], ast.Constant) and node.comparators[0].value == 0:
+            x = self.visit(node.left.args[0])
+            if isinstance(node.ops[0], ast.Eq):
+                return ast.copy_location(ast.UnaryOp(op=ast.Not(), operand=x), node)
+            if isinstance(node.ops[0], (ast.NotEq, ast.Gt)):
+                return x
+        return self.generic_visit(node)
+
     def visit_Constant(self, node: ast.Constant):
         if isinstance(node.value, str):
             return ast.copy_location(ast.Constant(value="<str>"), node)
